@@ -29,6 +29,13 @@ def pool_target(x, poison=()):
     return ('res', x)
 
 
+def pool_target_big(x, poison=()):
+    """Like pool_target, with a result that does not fit a pipe buffer (a kill can cut it short on the wire)."""
+    if x in poison:
+        raise PoolDeath(x)
+    return ('res', x, b'x' * 400000)
+
+
 class Val:
     """Custom value class with structural equality."""
 
